@@ -153,6 +153,75 @@ CHECKS = {
         assumptions=["retyping of an ELEMENT type inside a container is outside the statement and not generated",
                      "the reference tolerant reader (engines/vgenrun/src/tchecks2.rs TolReader) is the oracle"],
     ),
+    "C05": dict(
+        engine="gen:psem_d0", parts=["gen:psem_d0", "gen:psem_d1"], level="exploration", quick_cap=280, thorough_cap=3600,
+        rule=("Message types: every message generated by the real pilota-build from the protobuf semantic corpus (proto3: all 15 "
+              "scalar types in singular, optional, repeated, map-value, 12 map-key and oneof positions; field numbers 1, 15, 16, "
+              "2047, 2048, 2^29-1; enums incl. negative and undeclared numbers; embedded, nested (3 levels), recursive and imported "
+              "messages in singular/optional/repeated/map/oneof position; proto2 required/optional/repeated) plus hand-written "
+              "messages over the runtime codecs generated code does not reach (string over String, bytes over Vec<u8>, sint32/sint64, "
+              "encode_packed of all 13 packable types, group singular/repeated/recursive, btree_map with 6 key/value kinds, the 11 "
+              "wrapper impls of types.rs) x both settings of feature pb-encode-default-value (two harness builds). Values per "
+              "message: the empty message, every field alone with every value of its boundary alphabet (13-14 integers per width incl. "
+              "every varint length boundary, 10 float/double bit patterns incl. -0.0, NaN payload, subnormal; strings/bytes of length "
+              "0,1,127,128,256,300 [16384 thorough]; repeated: singletons, the whole alphabet, 140 copies; maps: every key with one "
+              "value, every value with one key, default key+default value, 4 entries; embedded messages: values of the embedded "
+              "type one level down [two thorough]) and 6 [40] all-fields rows. Each value is produced by decoding its reference "
+              "encoding with 4 buffer kinds (Bytes, &[u8], two chunks split at 1 and at len/2: the varint slow path), then: "
+              "encoded_len() == bytes written; encode into a window of exactly encoded_len() succeeds, fills it and leaves the "
+              "painted slack intact; one byte less is refused; encode_length_delimited == varint(len)+encode; decoding the output "
+              "consumes it exactly and yields the same field read-out (bit-exact for floats) and PartialEq-equal value; "
+              "decode_length_delimited leaves exactly the 3 trailing bytes."),
+        assumptions=["values of generated types are read through field accessors emitted from the schema (no codec involved)",
+                     "the value domain is what the decoder produces from the reference encoding; C06 decides that it is the intended value",
+                     "generator-level groups are outside the supported grammar (pilota-build has todo!() for TYPE_GROUP); groups are "
+                     "covered at the runtime-codec level by the hand-written messages"],
+    ),
+    "C06": dict(
+        engine="gen:psem_d0", parts=["gen:psem_d0", "gen:psem_d1"], level="model_checking", quick_cap=280, thorough_cap=3600,
+        rule=("Message types and values as C05. For every value the reference encoder (vcore::pbref, written from the protobuf "
+              "encoding guide, self-checked against its vectors) enumerates conforming encodings through a deviation-bounded "
+              "explorer: permutation of the field records (<=5 records: all n! as one choice), repeated scalars unpacked / one "
+              "packed run / two packed runs / packed run followed by unpacked elements, map entries key-value / value-key / default "
+              "key omitted / default value omitted, proto3 singular defaults written / omitted; bound 1 quick, 2 thorough, <=400 "
+              "[4000] encodings per value. Oracles: (decode direction) pilota decodes every conforming encoding completely and the "
+              "field read-out equals the intended value; (encode direction) the reference decoder accepts pilota's bytes (declared "
+              "wire type per field, zigzag, little-endian fixed widths, key=1/value=2 entries) and recovers the value pilota holds."),
+        assumptions=["states = field kinds (label/type/map key) exercised; transitions = (field kind, kind of deviation from the canonical encoding)",
+                     "not offered as conforming alternatives: non-minimal varints, repeated occurrences of singular fields (C18 covers merging)"],
+    ),
+    "C10": dict(
+        engine="gen:psem_d0", parts=["gen:psem_d0", "gen:psem_d1"], level="fault_enumeration", quick_cap=280, thorough_cap=3600,
+        rule=("Message types as C05. (a) every byte string of length <=2 (65 793) for about half of the types in quick / all in "
+              "thorough, and all strings of length 3 [4] over an alphabet of 23 structural bytes + the keys of the type's first "
+              "fields with every wire type 0..5; (b) for the all-fields rows and every 5th [every] single-field value, encoded with "
+              "packed repeated fields: every truncation, the same under length-delimited framing (prefix promises more than is "
+              "there: must be rejected), bit flips of bits {0,2,7} [all 8] at every position, every length prefix at every nesting "
+              "level overwritten by len+1, len-1, 127, 2^14, 2^31-1, 2^32-1, 2^32, 2^63, 2^64-1; each with a Bytes buffer and a "
+              "two-chunk buffer; (c) nesting depth 1..300 and 5000 / 200 000 [10^3..10^6 for groups] through every recursive position "
+              "(singular, repeated, map value, group fields of the hand-written message) and through unknown groups in any message. "
+              "Oracle: Ok or DecodeError - no panic, no worker death (stack overflow, abort), < 2 s; bytes allocated <= 64 KiB + "
+              "4 x len x (largest message size_of + 64); a length prefix larger than the remaining input is rejected with at most "
+              "what the unfaulted decode allocates + 2 KiB + len; depth > 100 is rejected, depth <= 64 (32 through map entries, which "
+              "cost two levels) is accepted."),
+        assumptions=["a stack overflow or abort kills the worker and is attributed through the progress file",
+                     "allocation is measured by a counting global allocator over the decode call only"],
+    ),
+    "C18": dict(
+        engine="gen:psem_d0", parts=["gen:psem_d0", "gen:psem_d1"], level="model_checking", quick_cap=280, thorough_cap=3600,
+        rule=("Message types and value space as C05. Pairs (a, b): all ordered pairs of the all-fields rows; every single-field value "
+              "followed by the next value of the same field (last-wins / append / map re-insertion / oneof replacement / field-wise "
+              "message merge) and by a value of another field or oneof member; single-field values against rows in both orders "
+              "(every 3rd in quick). For each pair: decode(enc(a) ++ enc(b)) == decode(enc(a)) then merge(enc(b)) == the reference "
+              "decoder's result (the specification's merge); every order-preserving interleaving of the two top-level record "
+              "sequences with <=2 [3] switches (deviation-bounded explorer, <=200 [3000] per pair) equals the reference result. "
+              "Unknown fields: for every value, 9 unknown records (varint 2 and 10 bytes, fixed64, fixed32, empty and non-empty "
+              "length-delimited, empty group, nested group containing varint/group/length-delimited/fixed32, field number 2^29-2) "
+              "inserted at every record boundary of every nesting level incl. inside map entries (quick: all boundaries up to 12, a "
+              "third beyond): decoding succeeds, consumes everything and yields the unchanged value."),
+        assumptions=["states = field kinds and (unknown kind, nesting level); transitions = (field kind, unknown kind, level) and (field kind, interleave)",
+                     "interleavings are of whole records (a repeated field's occurrences may be separated, a packed run is one record)"],
+    ),
     "C13": dict(
         engine="gen:tsem", level="exploration", quick_cap=280, thorough_cap=3600,
         rule=("Every struct of the semantic corpus compiled with keep_unknown_fields. Writer values = minimal and rich value plus "
@@ -164,11 +233,14 @@ CHECKS = {
         assumptions=["types in pilota's 'args' set are tagged [arg-type+retention] (recorded finding)"],
     ),
     "C19": dict(
-        engine="gen:tsem", level="fault_enumeration", quick_cap=280, thorough_cap=3600,
+        engine="gen:tsem", parts=["gen:tsem", "gen:psem_d0"], level="fault_enumeration", quick_cap=280, thorough_cap=3600,
         rule=("For a rich and a minimal value of every generated type (keep off/on) x {binary, binary-LE, compact}: every "
               "truncation [thorough: and every annotated length/count/id/type overwrite (C09 fault values)]; cases whose decode returns Err are "
               "run three times (warm-up + 2 measured) x {sync, async}: live heap bytes after dropping the error and the input must "
-              "equal live bytes before on both measured runs (a real leak repeats, lazy statics do not)."),
+              "equal live bytes before on both measured runs (a real leak repeats, lazy statics do not). Protobuf half: the C10 "
+              "fault set (b) (truncations, framed truncations, bit flips, length-prefix overwrites) of every generated and "
+              "hand-written protobuf message with a Bytes buffer (values share the input) and a two-chunk buffer (values copy): "
+              "after a failed decode live bytes == live bytes before."),
         assumptions=["counting global allocator (vcore::alloc); the harness drops its own response before measuring"],
     ),
     "C15": dict(
@@ -273,6 +345,8 @@ def write_manifest():
     kinds = {
         "vcore": "shared library: dynamic Thrift values, bounded enumerators, reference codecs written from the specs, deviation-bounded explorer, counting allocator, shard/evidence plumbing",
         "gen:tsem": "generated-code engine: lib/corpus.py writes the semantic Thrift corpus + its schema, engines/vgen runs the real pilota-build per (document, configuration) in a child process, lib/gen.py scans the output for generated Message impls and emits a harness crate that include!s them; engines/vgenrun/src is the harness (schema-directed value enumeration, reference codec comparison)",
+        "gen:psem_d0": "generated protobuf engine: lib/corpus.py writes the protobuf semantic corpus + schema, engines/vgen runs the real pilota-build, lib/gen.py emits a harness crate that include!s the generated files and field read-out impls derived from the schema; engines/vpbrun/src is the harness (value spaces, reference codec vcore::pbref, fault enumeration); built against pilota with feature pb-encode-default-value off",
+        "gen:psem_d1": "the same harness built against pilota with feature pb-encode-default-value on",
         "py:c17": "lib/c17.py: runs the real generator (plain and cfg(pilota_verif)-hooked builds of engines/vgen) under an LD_PRELOAD getrandom shim (engines/shim/verifrand.c), setarch -R and RAYON_NUM_THREADS; compares SHA-256 of all emitted files",
         "py:c14": "lib/c14.py: runs engines/vgen (the real pilota-build) in a child process per (document, configuration) and type-checks all outputs as modules of one crate",
         "vparse": "Thrift IDL parser engine: own descriptor AST, token printer with a choice point at every free layout decision, mutation/fault enumerators over rendered documents; drives pilota_thrift_parser::File::parse",
@@ -308,6 +382,8 @@ def setup():
     import gen
     r = gen.build_thrift_sem("quick")
     print("tsem harness:", json.dumps(r["info"]))
+    for cfg in ("d0", "d1"):
+        print("psem harness:", json.dumps(gen.build_proto_sem(cfg)["info"]))
     # warm the C14 type-check crate (cargo check is a no-op afterwards unless /repo changes)
     import c14, c17
     c14.run("quick", 0)
@@ -341,7 +417,8 @@ def engine_bin(engine, tier):
     t0 = time.time()
     if engine.startswith("gen:"):
         import gen
-        r = {"gen:tsem": gen.build_thrift_sem}[engine](tier)
+        r = {"gen:tsem": gen.build_thrift_sem, "gen:psem_d0": lambda t: gen.build_proto_sem("d0"),
+             "gen:psem_d1": lambda t: gen.build_proto_sem("d1")}[engine](tier)
         return r["bin"], time.time() - t0, r["info"]
     b, secs = vlib.build(engine)
     return b, secs, {}
